@@ -388,6 +388,7 @@ func runBatch(c *core.Ctx, as []atom, tgs []string, m mode, extra []string, pass
 			"repro.sh": "#!/bin/sh\n# generate into a scratch module and build; see output.txt for the recorded diagnostics\n"}
 	}
 	blamed := map[string]bool{}
+	var deferred []func()
 	blame := func(kind, tg, out string) {
 		// attribute failure text to atoms; unattributed output blames the whole batch (split further)
 		ids := map[string]string{}
@@ -420,6 +421,25 @@ func runBatch(c *core.Ctx, as []atom, tgs []string, m mode, extra []string, pass
 				}
 			}
 		}
+		if len(ids) == 0 {
+			// last resort: the message itself names a generated identifier built from an operation id
+			// or a definition name (o.NewNameTag39 undefined, registerModelVfXFlags ...)
+			for _, l := range strings.Split(out, "\n") {
+				nl := norm(l)
+				best := ""
+				for k, id := range byOp {
+					if !strings.HasPrefix(k, "pkg:") && len(k) > 5 && strings.Contains(nl, k) && len(k) > len(best) {
+						best = k
+						ids[id] = strings.TrimSpace(l)
+					}
+				}
+				for d, id := range byDef {
+					if k := norm(d); len(k) > 7 && strings.Contains(nl, k) {
+						ids[id] = strings.TrimSpace(l)
+					}
+				}
+			}
+		}
 		mu.Lock()
 		defer mu.Unlock()
 		for id, msg := range ids {
@@ -430,6 +450,14 @@ func runBatch(c *core.Ctx, as []atom, tgs []string, m mode, extra []string, pass
 			} else {
 				c.Violation(fmt.Sprintf("C01/B:%s/%s/%s", id, kind, tg), fmt.Sprintf("composite (%s): generate %s: %s: %s", cfg, tg, kind, core.OneLine(msg)), files(out))
 			}
+		}
+		if len(ids) == 0 && kind == "does-not-compile" {
+			// diagnostics in files shared by all operations (API struct, client facade): if other atoms
+			// were blamed in this round the batch is built again without them; only what persists is reported
+			deferred = append(deferred, func() {
+				c.Violation(fmt.Sprintf("C01/%sunattributed[%s]/%s/%s/%s", pass, label, kind, tg, cfg), fmt.Sprintf("generate %s: %s, not attributable to one atom: %s", tg, kind, core.OneLine(tail(out, 600))), files(out))
+			})
+			return
 		}
 		if len(ids) == 0 {
 			c.Violation(fmt.Sprintf("C01/%sunattributed[%s]/%s/%s/%s", pass, label, kind, tg, cfg), fmt.Sprintf("generate %s: %s, not attributable to one atom: %s", tg, kind, core.OneLine(tail(out, 600))), files(out))
@@ -547,6 +575,32 @@ func runBatch(c *core.Ctx, as []atom, tgs []string, m mode, extra []string, pass
 				continue
 			}
 			blame("does-not-compile", tg, out)
+		}
+	}
+	if len(blamed) == 0 {
+		mu.Lock()
+		for _, f := range deferred {
+			f()
+		}
+		mu.Unlock()
+	}
+	if !ok && len(blamed) > 0 && depth < 8 {
+		// errors of one atom can hide those of another (a package that fails to type-check is
+		// not analysed further, dependants are not compiled): build again without the blamed atoms
+		var rest []atom
+		for _, a := range as {
+			if !blamed[a.id] {
+				rest = append(rest, a)
+			}
+		}
+		if len(rest) > 0 && len(rest) < len(as) {
+			var gt []string
+			for t := range generated {
+				gt = append(gt, t)
+			}
+			sort.Strings(gt)
+			runBatch(c, rest, gt, m, extra, pass, label, depth+1)
+			return
 		}
 	}
 	mu.Lock()
